@@ -261,9 +261,20 @@ def lemma(ok, fact):
 
 def _quiet():
     """The analysed code logs through resonaateLogError before raising; keep the obligation's stdout clean."""
-    from resonaate.physics import maths as M
+    import contextlib
+    import importlib
 
-    return shadow(M, resonaateLogError=lambda msg: None)
+    from resonaate.physics import maths as M
+    from symx.ext_c01 import closeness_shadows
+
+    st = contextlib.ExitStack()
+    st.enter_context(shadow(M, resonaateLogError=lambda msg: None))
+    # tolerance comparisons of numpy / math, wherever the orbit modules bind them, enter as their defining formula (exact real arithmetic)
+    mods = [importlib.import_module(n) for n in ("resonaate.physics.orbits", "resonaate.physics.orbits.anomaly", "resonaate.physics.orbits.conversions",
+                                                 "resonaate.physics.orbits.utils", "resonaate.physics.orbits.elements", "resonaate.physics.orbits.kepler")]
+    for c in closeness_shadows(mods):
+        st.enter_context(c)
+    return st
 
 
 def _z(x):
@@ -516,6 +527,24 @@ def _o2_explore(rep, body, label):
     return out
 
 
+class _Sym:
+    """View of a module whose functions return proxies also when the analysed code hands back a plain number (a literal 0.0, say)."""
+
+    def __init__(self, mod):
+        self.__dict__["_m"] = mod
+
+    def __getattr__(self, name):
+        f = getattr(self.__dict__["_m"], name)
+        if not callable(f):
+            return f
+
+        def g(*a, **k):
+            r = f(*a, **k)
+            return SReal(r) if isinstance(r, (int, float)) and not isinstance(r, bool) else r
+
+        return g
+
+
 def _ang(name):
     a = real(name)
     assume(a.t >= 0, a.t < TWOPI)
@@ -557,6 +586,7 @@ def _inverse_premise(rep, label, r, e, b, cs0, cs1, back, la, mid, inputs, sampl
 
 def o2a_true2ecc(rep):
     from resonaate.physics.orbits import anomaly as AN
+    AN = _Sym(AN)  # results that come back as plain numbers are lifted
 
     def body(e):
         nu = _ang("nu")
@@ -582,6 +612,7 @@ def o2a_true2ecc(rep):
 
 def o2b_ecc2true(rep):
     from resonaate.physics.orbits import anomaly as AN
+    AN = _Sym(AN)  # results that come back as plain numbers are lifted
 
     def body(e):
         E = _ang("E")
@@ -607,6 +638,7 @@ def o2b_ecc2true(rep):
 
 def o2c_kepler(rep):
     from resonaate.physics.orbits import anomaly as AN
+    AN = _Sym(AN)  # results that come back as plain numbers are lifted
 
     def body(e):
         E = _ang("E")
@@ -1261,6 +1293,7 @@ def o6a_config_coe(rep):
 def o6b_config_eci_eqe(rep):
     from resonaate.physics import constants as const
     from resonaate.physics.orbits import anomaly as AN
+    AN = _Sym(AN)  # results that come back as plain numbers are lifted
     from resonaate.physics.orbits import conversions as CV
     from resonaate.physics.orbits import elements as EL
     from resonaate.physics.orbits import utils as UT
@@ -1283,7 +1316,7 @@ def o6b_config_eci_eqe(rep):
             assume(a.t >= 6600, a.t <= 50000, (h * h + k * k).t < rv(0.81), pp.t >= -50, pp.t <= 50, q.t >= -50, q.t <= 50)
             cfg = EQEStateConfig.model_construct(semi_major_axis=a, h=h, k=k, p=pp, q=q, mean_longitude=lam, retrograde=retro)
             ks = KeplerStub()
-            with _quiet(), shadow(EL, getPeriod=lambda *a_, **k_: 0.0, getMeanMotion=lambda *a_, **k_: 0.0), shadow(AN, keplerSolveEQE=ks.eqe), shadow(UT, arctan=arctan_via_arctan2):
+            with _quiet(), shadow(EL, getPeriod=lambda *a_, **k_: 0.0, getMeanMotion=lambda *a_, **k_: 0.0), shadow(getattr(AN, "_m", AN), keplerSolveEQE=ks.eqe), shadow(UT, arctan=arctan_via_arctan2):
                 x = cfg.toECI(None)
                 ref = CV.eqe2eci(a, h, k, pp, q, lam * D, retro=retro)
             return x, ref, ks.axioms
